@@ -22,6 +22,28 @@ CLAIMED = {
         "abstract interpretation of the LP-building code into rational constraint templates + linear-span obligations",
         "other",
     ),
+    "C02": (
+        "Decides that the programme handed to CBC is the documented one: objective variable bounded by every month's "
+        "consumed kcals and maximised; consumed kcals = the nine contributions with the documented coefficients; the "
+        "3 x (2 human + feed + biofuel) intake caps; round-2 objective <= 2/3 total feed + 1/3 total biofuel; round-2 pins "
+        "symmetric within 1e-3 on the right variable; the reported optimum is the first solve's objective value read "
+        "after the success assertion. Exact rational identities on extracted constraint templates, every month class / "
+        "round / flag combination. Optimality of the solver's answer is not decided (section 6).",
+        "Assumes CBC returns an optimal point (within gapRel) of the LP it is given. " + TRUST,
+        "abstract interpretation into constraint templates + template/specification identity; statement-order analysis",
+        "other",
+    ),
+    "C12": (
+        "Scale clause decided for all inputs: every constraint template of the human-maximising LP is a homogeneous form "
+        "under the declared degree table (supplies, stocks, areas, needs, population: 1; percentages, waste, densities, "
+        "ratios: 0), hence the feasible set is a cone map x->t x preserving consumed_kcals. Monotonicity clause: the "
+        "structural premises (supplies only on relaxing sides or as sources of correctly oriented stock balances, charges "
+        "only as the constant of use-sum equalities, foods add positively to consumption) are decided; the conclusion "
+        "for equality ledgers is LP duality and is not re-proved.",
+        "Solver assumed exact (tolerances gapRel / 0.99995 ignored); waste < 100 %. " + TRUST,
+        "homogeneity (degree) analysis and sign analysis of extracted rational constraint templates",
+        "other",
+    ),
 }
 
 NOT_APPLICABLE = {
